@@ -24,17 +24,23 @@ EXEC = {
     "contract": [("bump", lambda r: [r.choice([0, 1, 4294967295]), r.choice([None] + STR)]),
                  ("set_owner", lambda r: [r.choice(STR)]),
                  ("foo1_bar", lambda r: [r.randint(0, 2 ** 64 - 1), r.randint(0, 99)])],
-    "contract_as_iface": [("poke", lambda r: [r.randint(0, 2 ** 32 - 1)]), ("poke2", lambda r: [r.choice(STR), r.choice(STR)])],
-    "dyn": [("poke", lambda r: [r.randint(0, 2 ** 32 - 1)]), ("poke2", lambda r: [r.choice(STR), r.choice(STR)])],
+    "contract_as_iface": [("poke", lambda r: [r.randint(0, 2 ** 32 - 1)]), ("poke2", lambda r: [r.choice(STR), r.choice(STR)]),
+                          ("stage_2_poke", lambda r: [r.randint(0, 2 ** 32 - 1)])],
+    "dyn": [("poke", lambda r: [r.randint(0, 2 ** 32 - 1)]), ("poke2", lambda r: [r.choice(STR), r.choice(STR)]),
+            ("stage_2_poke", lambda r: [r.randint(0, 2 ** 32 - 1)])],
 }
+# the name the message of a method serialises under (serde's rule on the variant), where it differs from the method name
+WIRE = {"stage_2_poke": "stage2_poke"}
 QUERY = {
     "contract": [("value", lambda r: []), ("sum", lambda r: [r.randint(0, 2 ** 32 - 1), r.randint(0, 9)])],
     "borrowed": [("value", lambda r: []), ("sum", lambda r: [r.randint(0, 2 ** 32 - 1), r.randint(0, 9)])],
-    "contract_as_iface": [("peek", lambda r: []), ("peek_at", lambda r: [r.randint(0, 2 ** 32 - 1), r.choice(STR)])],
-    "dyn": [("peek", lambda r: []), ("peek_at", lambda r: [r.randint(0, 2 ** 32 - 1), r.choice(STR)])],
+    "contract_as_iface": [("peek", lambda r: []), ("peek_at", lambda r: [r.randint(0, 2 ** 32 - 1), r.choice(STR)]),
+                          ("peek_a_b", lambda r: [r.randint(0, 2 ** 32 - 1)])],
+    "dyn": [("peek", lambda r: []), ("peek_at", lambda r: [r.randint(0, 2 ** 32 - 1), r.choice(STR)]),
+            ("peek_a_b", lambda r: [r.randint(0, 2 ** 32 - 1)])],
 }
 ARGNAMES = {"bump": ["by", "memo"], "set_owner": ["owner"], "foo1_bar": ["a", "b"], "poke": ["n"], "poke2": ["a", "b"],
-            "value": [], "sum": ["a", "b"], "peek": [], "peek_at": ["idx", "tag"]}
+            "value": [], "sum": ["a", "b"], "peek": [], "peek_at": ["idx", "tag"], "stage_2_poke": ["n"], "peek_a_b": ["idx"]}
 
 
 def js(v):
@@ -125,7 +131,7 @@ def check(run, replay=None):
             if json.loads(a.get("funds", "[]")) != want_funds:
                 run.oracle_fail("handler saw funds %s, builder was given %s" % (a.get("funds"), js(want_funds)), desc)
             body = jsonx.parse(o.get("body", "null"))
-            expect = jsonx.JObj([(op["method"], jsonx.JObj(list(zip(ARGNAMES[op["method"]], [jsonx.from_py(x) for x in op["args"]]))))])
+            expect = jsonx.JObj([(WIRE.get(op["method"], op["method"]), jsonx.JObj(list(zip(ARGNAMES[op["method"]], [jsonx.from_py(x) for x in op["args"]]))))])
             if body != expect:
                 run.oracle_fail("body is %s, expected %s" % (o.get("body", "")[:200], jsonx.to_text(expect)[:200]), desc)
             if i % 53 == 0:
